@@ -442,6 +442,7 @@ func patterns(r *lib.Report, tier string, samples *[]interface{}) (int64, int64)
 	specs := []patSpec{
 		{"Kind(Int)", func(t string) fpgo.Pattern { return fpgo.InCaseOfKind(reflect.Int, eff(t)) }, func(v interface{}) bool { return !isNilRef(v) && kindRef(v) == reflect.Int }},
 		{"Kind(String)", func(t string) fpgo.Pattern { return fpgo.InCaseOfKind(reflect.String, eff(t)) }, func(v interface{}) bool { return !isNilRef(v) && kindRef(v) == reflect.String }},
+		{"Kind(Ptr)", func(t string) fpgo.Pattern { return fpgo.InCaseOfKind(reflect.Ptr, eff(t)) }, func(v interface{}) bool { return !isNilRef(v) && kindRef(v) == reflect.Ptr }},
 		{"SumType", func(t string) fpgo.Pattern { return fpgo.InCaseOfSumType(sumT, eff(t)) }, func(v interface{}) bool {
 			if cd, ok := v.(fpgo.CompData); ok {
 				return sumAcceptsObjects(compObjects(cd))
@@ -533,7 +534,7 @@ func patterns(r *lib.Report, tier string, samples *[]interface{}) (int64, int64)
 			func(v interface{}) bool { return ev.v == v }})
 	}
 	eqSpecs = append(eqSpecs, patSpec{"Regex(invalid)", func(t string) fpgo.Pattern { return fpgo.InCaseOfRegex("a(", eff(t)) }, func(v interface{}) bool { return false }})
-	eqSpecs = append(eqSpecs, specs[5])
+	eqSpecs = append(eqSpecs, specs[6])
 	var eqOrders [][]int
 	var gen2 func(cur []int, used int)
 	gen2 = func(cur []int, used int) {
@@ -588,7 +589,7 @@ func patterns(r *lib.Report, tier string, samples *[]interface{}) (int64, int64)
 	}
 	// Either is MatchFor over the same list
 	trans++
-	if got := fmt.Sprint(fpgo.Either("abc", specs[0].mk("k"), specs[4].mk("r"), specs[5].mk("o"))); got != "r:string=abc" {
+	if got := fmt.Sprint(fpgo.Either("abc", specs[0].mk("k"), specs[5].mk("r"), specs[6].mk("o"))); got != "r:string=abc" {
 		r.Violation("C20|match|either", "Either gave "+got, nil)
 	}
 	return states, trans
